@@ -1223,7 +1223,7 @@ func main() {
 		}
 		luckyHist(256, 100, ops, "nt,wrap,cap256")
 	}
-	for _, ln := range []int{300, 600} {
+	for _, ln := range []int{300, 300, 300, 300, 600, 600} {
 		genLuckyLong(r, ln)
 		genNtimedLong(r, ln)
 	}
